@@ -287,6 +287,11 @@ def corpus(thorough=False):
         Scenario("epsv@listener-gated", s_epsv_only, net_setup=gate_listener),
         Scenario("pool@listener-gated", s_epsv_only, server_kwargs={"data_ports": [41001, 41002]}, net_setup=gate_listener),
     ]
+    # the server's own speed limits at work (the worker sleeps in its throttle between blocks, and after the last one)
+    sc.append(Scenario("retr-throttled", s_retr, tree=TREE_BIG, server_kwargs={"block_size": 64, "write_speed_limit": 640}))
+    sc.append(Scenario("stor-throttled", s_stor, server_kwargs={"block_size": 64, "read_speed_limit_per_connection": 320}))
+    sc.append(Scenario("list-throttled", s_list_mlsd, server_kwargs={"write_speed_limit_per_connection": 200}))
+    sc.append(Scenario("limits-throttled", s_two_sessions, tree=TREE_BIG, server_kwargs={"block_size": 64, "maximum_connections": 3, "read_speed_limit": 400, "write_speed_limit": 2000}))
     sc.append(Scenario("retr-unread", s_retr_unread, tree=TREE_HUGE, server_kwargs=small_blocks))
     # pipelined commands, under several iteration orders of the server's task sets
     for salt in range(8 if thorough else 6):
